@@ -6,7 +6,7 @@ Import ListNotations.
 From WV Require Import Gen.Ops Model.Common Model.IR Model.Traversal.
 Local Open Scope nat_scope.
 
-Opaque default_hook_recurses default_hook_mut_recurses.
+Opaque default_hook_recurses default_hook_mut_recurses visit_fields_after_hook.
 
 (* ------------------------------------------------------------------ flat views of the nested fixpoints *)
 Definition here (ov : bool) (x : item * N) : list ev :=
@@ -263,8 +263,8 @@ Fixpoint balanced (evs : list ev) (stack : list N) : bool :=
 
 Definition instr_refs (i : instr) : list (space * N) :=
   match i with IPlain p => visited_refs p | _ => [] end.
-Definition ref_mult (twice : bool) (i : instr) : list (space * N) :=
-  if twice then instr_refs i ++ instr_refs i else instr_refs i.
+Definition ref_count (twice after : bool) (i : instr) : list (space * N) :=
+  (if twice then instr_refs i else []) ++ (if after then instr_refs i else []).
 
 (* the three projections of the log *)
 Definition pI (e : ev) : list (instr * N) := match e with EInstr i l => [(i, l)] | _ => [] end.
@@ -294,20 +294,26 @@ Proof.
   rewrite IH. reflexivity.
 Qed.
 
+Lemma pR_if (c : bool) i :
+  flat_map pR (if c then field_events i else []) = if c then instr_refs i else [].
+Proof. destruct c; [apply field_events_pR|reflexivity]. Qed.
+
 Lemma instr_visit_pI b ov i : flat_map pI (instr_visit b ov i) = [].
 Proof.
-  unfold instr_visit. cbn [flat_map pI app]. apply flat_map_nil_app; [|apply field_events_pI].
-  destruct (negb ov && b); [apply field_events_pI|reflexivity].
+  unfold instr_visit. cbn [flat_map pI app]. apply flat_map_nil_app.
+  - destruct (negb ov && b); [apply field_events_pI|reflexivity].
+  - destruct visit_fields_after_hook; [apply field_events_pI|reflexivity].
 Qed.
 Lemma instr_visit_pS b ov i : flat_map pS (instr_visit b ov i) = [].
 Proof.
-  unfold instr_visit. cbn [flat_map pS app]. apply flat_map_nil_app; [|apply field_events_pS].
-  destruct (negb ov && b); [apply field_events_pS|reflexivity].
+  unfold instr_visit. cbn [flat_map pS app]. apply flat_map_nil_app.
+  - destruct (negb ov && b); [apply field_events_pS|reflexivity].
+  - destruct visit_fields_after_hook; [apply field_events_pS|reflexivity].
 Qed.
-Lemma instr_visit_pR b ov i : flat_map pR (instr_visit b ov i) = ref_mult (negb ov && b) i.
+Lemma instr_visit_pR b ov i :
+  flat_map pR (instr_visit b ov i) = ref_count (negb ov && b) visit_fields_after_hook i.
 Proof.
-  unfold instr_visit, ref_mult. cbn [flat_map pR app]. rewrite flat_map_app, field_events_pR.
-  destruct (negb ov && b); [rewrite field_events_pR|]; reflexivity.
+  unfold instr_visit, ref_count. cbn [flat_map pR app]. rewrite flat_map_app, !pR_if. reflexivity.
 Qed.
 
 Lemma tyv_pI ty : flat_map pI (tyv ty) = []. Proof. destruct ty; reflexivity. Qed.
@@ -319,7 +325,8 @@ Proof. unfold here. cbn [flat_map pI app]. rewrite instr_visit_pI. reflexivity. 
 Lemma here_pS ov x : flat_map pS (here ov x) = [].
 Proof. unfold here. cbn [flat_map pS app]. apply instr_visit_pS. Qed.
 Lemma here_pR ov x :
-  flat_map pR (here ov x) = ref_mult (negb ov && default_hook_recurses) (shallow (fst x)).
+  flat_map pR (here ov x)
+  = ref_count (negb ov && default_hook_recurses) visit_fields_after_hook (shallow (fst x)).
 Proof. unfold here. cbn [flat_map pR app]. apply instr_visit_pR. Qed.
 
 Theorem in_order_instrs : forall ov t,
@@ -352,11 +359,11 @@ Qed.
 
 Theorem in_order_refs : forall ov t,
   flat_map (fun e => match e with ERef sp id => [(sp, id)] | _ => [] end) (events ov t)
-  = flat_map (fun x => ref_mult (negb ov && default_hook_recurses) (fst x)) (instrs_in_order t).
+  = flat_map (fun x => ref_count (negb ov && default_hook_recurses) visit_fields_after_hook (fst x)) (instrs_in_order t).
 Proof.
   intros ov t.
   change (flat_map pR (events ov t)
-          = flat_map (fun x => ref_mult (negb ov && default_hook_recurses) (fst x)) (instrs_in_order t)).
+          = flat_map (fun x => ref_count (negb ov && default_hook_recurses) visit_fields_after_hook (fst x)) (instrs_in_order t)).
   induction t as [s ty items e HF] using tree_ind'.
   rewrite events_T, instrs_T. cbn [flat_map pR app].
   rewrite !flat_map_app, tyv_pR. cbn [flat_map pR app]. rewrite app_nil_r.
@@ -387,8 +394,10 @@ Proof. destruct i; cbn [field_events]; apply forallb_map_true; reflexivity. Qed.
 
 Lemma here_neutral ov x : forallb neutral (here ov x) = true.
 Proof.
-  unfold here, instr_visit. cbn [forallb neutral andb]. rewrite forallb_app, field_events_neutral.
-  destruct (negb ov && default_hook_recurses); [rewrite field_events_neutral|]; reflexivity.
+  unfold here, instr_visit. cbn [forallb neutral andb]. rewrite forallb_app.
+  apply andb_true_iff. split.
+  - destruct (negb ov && default_hook_recurses); [apply field_events_neutral|reflexivity].
+  - destruct visit_fields_after_hook; [apply field_events_neutral|reflexivity].
 Qed.
 
 Lemma tyv_neutral ty : forallb neutral (tyv ty) = true.
@@ -568,7 +577,7 @@ Qed.
 Lemma seq_events_mut_pR ov t :
   flat_map pR (seq_events_mut ov t) =
   match t with T _ _ items _ =>
-    flat_map (fun x => ref_mult (negb ov && default_hook_mut_recurses) (shallow (fst x))) items end.
+    flat_map (fun x => ref_count (negb ov && default_hook_mut_recurses) visit_fields_after_hook (shallow (fst x))) items end.
 Proof.
   destruct t as [s ty items e]. cbn [seq_events_mut]. rewrite seq_visit_shallow.
   cbn [flat_map pR app]. rewrite !flat_map_app, tyv_pR. cbn [flat_map pR app]. rewrite app_nil_r.
@@ -580,12 +589,12 @@ Qed.
 Theorem pre_order_refs : forall ov order,
   flat_map (fun e => match e with ERef sp id => [(sp, id)] | _ => [] end) (flat_map (seq_events_mut ov) order)
   = flat_map (fun t => match t with T _ _ items _ =>
-       flat_map (fun x => ref_mult (negb ov && default_hook_mut_recurses) (shallow (fst x))) items end) order.
+       flat_map (fun x => ref_count (negb ov && default_hook_mut_recurses) visit_fields_after_hook (shallow (fst x))) items end) order.
 Proof.
   intros ov order.
   change (flat_map pR (flat_map (seq_events_mut ov) order)
           = flat_map (fun t => match t with T _ _ items _ =>
-              flat_map (fun x => ref_mult (negb ov && default_hook_mut_recurses) (shallow (fst x))) items end) order).
+              flat_map (fun x => ref_count (negb ov && default_hook_mut_recurses) visit_fields_after_hook (shallow (fst x))) items end) order).
   induction order as [|t l IH]; [reflexivity|].
   cbn [flat_map]. rewrite flat_map_app, seq_events_mut_pR, IH. reflexivity.
 Qed.
